@@ -10,8 +10,8 @@
    The complement ("known bad") is explicit: [safe] (operator instances, Model/C01Safe.v) and [pos_ok] / [clean]
    (a None value tested for truth below a `not`); every disjunct has a refutation in Findings/C01.v / Findings/C02.v. *)
 Require Import PonyV.Base.PyBase PonyV.Model.C01Expr PonyV.Model.C01Sql PonyV.Model.C01Translate PonyV.Model.C01Safe
-               PonyV.Model.C01Eqb PonyV.Model.C01Query
-               PonyV.Proofs.C01Ref PonyV.Proofs.C01Sound PonyV.Proofs.C01Rows.
+               PonyV.Model.C01Eqb PonyV.Model.C01Query PonyV.Model.C01Like PonyV.Model.C01LikeEqb
+               PonyV.Proofs.C01Ref PonyV.Proofs.C01Sound PonyV.Proofs.C01Rows PonyV.Proofs.C01Like.
 
 (* WHERE keeps exactly the rows the Python condition keeps *)
 Theorem C01_filter_except_known : forall d, modelled d = true ->
@@ -65,6 +65,26 @@ Theorem C01_readings_keep_same_rows : forall en e, pos_ok en e = true ->
   py_truthy e (pony_eval en e) = py_truthy e (ref_eval en e).
 Proof. exact pos_ok_same. Qed.
 Print Assumptions C01_readings_keep_same_rows.
+
+(* the LIKE family (Model/C01Like.v): hay.startswith(needle), hay.endswith(needle), needle in hay and their negations
+   (`not ...`, `not in`), needle a string literal of the query (escaped at translation time) or ANY other string
+   expression - parameter, attribute, concatenation ... - (escaped in SQL by three REPLACEs), for every haystack and
+   needle string: the LIKE pattern with ESCAPE '!' accepts exactly what Python accepts.  Non-NULL operands only (the
+   NULL behaviour of `not in` is the finding string-not-in-keeps-null-rows). *)
+Theorem C01_like : forall d en k neg hay needle c s n,
+  like_of d k neg hay needle = Some c ->
+  (forall kh nh qh, tr d hay = MVal kh TStr nh qh -> qeval d (encenv d en) qh = StrV s) ->
+  needle_val d (encenv d en) (tr d needle) = Some n ->
+  lcond_eval d (encenv d en) c = Some (tv_of_bool (xorb neg (py_like k n s))).
+Proof. exact like_of_sound. Qed.
+Print Assumptions C01_like.
+
+Example C01_like_nonvacuous :
+  let hay := EAttr (mkattr 4 TStr true) in let needle := EParam 0 (Some TStr) in
+  let en := mkenv (fun _ => PStr [97; 33; 98]) (fun _ => PStr [97; 33]) in     (* 'a!b'.startswith('a!') *)
+  map (fun k => match like_of DSqlite k false hay needle with Some c => otv_code (lcond_eval DSqlite (encenv DSqlite en) c) | None => 9 end)
+      [KStarts; KEnds; KContains] = [1; 0; 1].
+Proof. vm_compute. reflexivity. Qed.
 
 (* non-vacuity: a nested filter with a None attribute, a negative parameter and a floor division satisfies every
    hypothesis on the three dialects, and both sides are `true` *)
